@@ -114,7 +114,7 @@ func verifC08ParseGetTransaction(raw *json.RawMessage) {
 }
 
 func verifC08ParseGetBlockTime(raw *json.RawMessage) {
-	verifC08DecodeOutcome(verifC08SlotArg, nil)
+	verifC08DecodeOutcome(verifC08SlotArg, []verifC08Key{}) // no config object today: vocabulary members only
 	_, err := parseGetBlockTimeRequest(raw)
 	if err != nil {
 		verifReach("getBlockTime.rejected")
